@@ -22,7 +22,7 @@ type c08Event struct {
 	Batch   []c08Event `json:"batch,omitempty"`
 }
 
-var c08VariantNames = []string{"clean", "syntax", "unused", "undefined", "defglobal", "useglobal", "require", "requiremissing", "annoclass", "useannoclass", "dupkey", "empty", "undefinedB", "requiremissingB", "useglobalB", "dofile"}
+var c08VariantNames = []string{"clean", "syntax", "unused", "undefined", "defglobal", "useglobal", "require", "requiremissing", "annoclass", "useannoclass", "dupkey", "empty", "undefinedB", "requiremissingB", "useglobalB", "dofile", "annoclassdup", "annoclassdup"}
 
 // c08Variant renders content variant v for file index i of n files.
 func c08Variant(v string, i, n int, layout string) string {
@@ -49,6 +49,9 @@ func c08Variant(v string, i, n int, layout string) string {
 		return fmt.Sprintf("local m%d = require(\"nomod%d\")\nprint(m%d)\n", i, i, i)
 	case "annoclass":
 		return fmt.Sprintf("---@class Cls%d\n---@field fa%d number\nlocal Cls%d = {}\nreturn Cls%d\n", i, i, i, i)
+	case "annoclassdup":
+		// the same class name in every file that carries this variant: two such files at once make a duplicate type
+		return fmt.Sprintf("---@class ClsShared\n---@field fs%d number\nlocal ClsShared%d = {}\nreturn ClsShared%d\n", i, i, i)
 	case "useannoclass":
 		return fmt.Sprintf("---@type Cls%d\nlocal v%d = {}\nprint(v%d.fa%d, v%d.nofield%d)\n", nxt, i, i, nxt, i, i)
 	case "dupkey":
